@@ -29,6 +29,7 @@ def run(ctx):
     queryvar.qv3(ctx)
     queryvar.qv4(ctx)
     queryvar.qv5(ctx)
+    queryvar.qv6(ctx)
     queryvar.pair_quoting(ctx, roles(ctx.model))
     immut.im3(ctx)
     immut.im6(ctx)
